@@ -45,7 +45,7 @@ theorem rename_moves_world (σ : Nat → Nat) (w : World) (h : DbH) (n n' : Stri
 
 theorem rename_errors_world (σ : Nat → Nat) (w : World) (h : DbH) (n n' : String) (dt : Bool)
     (hob : obtainedDb w h = true)
-    (hcase : validName n' = false ∨ created w (σ h.client) h.db n = false ∨
+    (hcase : validName n' = false ∨ n = n' ∨ created w (σ h.client) h.db n = false ∨
       (created w (σ h.client) h.db n' = true ∧ dt = false)) :
     (∃ e, (Catalog.step σ w (.renameCollection h n n' dt)).2 = .err e ∧
       (e = .invalidName ↔ validName n' = false)) ∧
@@ -60,6 +60,13 @@ theorem rename_errors_world (σ : Nat → Nat) (w : World) (h : DbH) (n n' : Str
     intro j d' m; simp only [store_setStore]; split
     · rename_i hj; rw [hj]
     · rfl
+  by_cases hnn : n = n'
+  · subst hnn
+    rw [renameStep_self _ _ _ _ hv]
+    refine ⟨⟨.opFail, rfl, by simp [hv]⟩, ?_⟩
+    intro j d' m; simp only [store_setStore]; split
+    · rename_i hj; rw [hj]
+    · rfl
   by_cases hsrc : created w (σ h.client) h.db n = true
   swap
   · have hs' : ((w.store (σ h.client)).coll h.db n).isCreated = false := by
@@ -69,8 +76,9 @@ theorem rename_errors_world (σ : Nat → Nat) (w : World) (h : DbH) (n n' : Str
     intro j d' m; simp only [store_setStore]; split
     · rename_i hj; rw [hj]; exact this.2 d' m
     · rfl
-  rcases hcase with hc | hc | ⟨hc, hdt⟩
+  rcases hcase with hc | hc | hc | ⟨hc, hdt⟩
   · rw [hv] at hc; simp at hc
+  · exact absurd hc hnn
   · rw [hsrc] at hc; simp at hc
   · subst hdt
     have := renameStep_target_exists (w.store (σ h.client)) h.db n n' hv hsrc hc
@@ -82,13 +90,18 @@ theorem rename_errors_world (σ : Nat → Nat) (w : World) (h : DbH) (n n' : Str
 theorem drop_empties (σ : Nat → Nat) (w : World) (op : Op) (h : CollH) (hdrop : Drops σ w op h) :
     (Catalog.step σ w op).2 = .ok ∧
     ((Catalog.step σ w op).1.store (σ h.client)).coll h.db h.coll = Coll.empty := by
-  rcases hdrop with ⟨hd, rfl, hobd, hσ, hdb⟩ | ⟨h', rfl, hobh, hσ, hdb, hn⟩ | ⟨c, rfl, hσ⟩
+  rcases hdrop with ⟨hd, rfl, hobd, hσ, hdb⟩ | ⟨h', rfl, hobh, hσ, hdb, hn⟩ | ⟨c, rfl, hσ⟩ |
+    ⟨hd, h', rfl, hobd, hobh, hσ, hdb, hn⟩ | ⟨c, hd, rfl, hobd, hσ, hdb⟩
   · have := drop_by_name_empties σ w hd h.coll hobd
     rw [hσ, hdb] at this; exact this
   · have := coll_drop_empties σ w h' hobh
     rw [hσ, hdb, hn] at this; exact this
   · have := drop_database_empties σ w c h.db h.coll
     rw [hσ] at this; exact this
+  · have := drop_by_handle_empties σ w hd h' hobd hobh
+    rw [hσ, hdb, hn] at this; exact this
+  · have := drop_database_by_handle_empties σ w c hd h.coll hobd
+    rw [hσ, hdb] at this; exact this
 
 /-- after any of the drops, every obtained handle onto the dropped name works from empty -/
 theorem drop_then_usable (σ : Nat → Nat) (w : World) (op : Op) (h : CollH)
@@ -115,6 +128,14 @@ theorem dropped_not_listed (σ : Nat → Nat) (w : World) (op : Op) (h : CollH) 
   intro hm
   have := (mem_listColls ((wf_step σ w op hw).1 _) _ _).mp hm
   unfold created at hc; rw [hc] at this; simp at this
+
+/-- a filtered listing is the unfiltered listing, filtered -/
+theorem filtered_listing (σ : Nat → Nat) (w : World) (h : DbH) (f : NameFilter)
+    (hob : obtainedDb w h = true) (hf : f.falsy = false) :
+    Catalog.step σ w (.listCollectionNames h (some f)) =
+      (w, .names (((w.store (σ h.client)).listColls h.db).filter f.applies)) := by
+  simp only [Catalog.step, hob, hf, Bool.not_true, Bool.false_eq_true, if_false,
+    Server.listCollsFiltered, Server.listColls, List.filter_filter]
 
 theorem reachable_wf (σ : Nat → Nat) (w : World) (h : Reachable σ w) : WF w := by
   obtain ⟨ops, rfl⟩ := h
